@@ -433,8 +433,17 @@ class MagicProperties:
             same_keys_only=not _match_properties,
             replace_None_only=_replace_None_only,
         )
-        for k, v in new_dict.items():
-            setattr(self, k, v)
+        # all or nothing: every setter stores a new value or a new sub-object in its private
+        # slot and never changes the old one in place, so putting the instance dictionary back
+        # undoes the assignments made before a later property or name was rejected
+        saved = dict(vars(self))
+        try:
+            for k, v in new_dict.items():
+                setattr(self, k, v)
+        except Exception:
+            vars(self).clear()
+            vars(self).update(saved)
+            raise
         return self
 
     def copy(self):
